@@ -335,6 +335,107 @@ pub fn many_ready_case(rng: &mut Rng, id: String, max: usize, k: usize) -> Case 
     case
 }
 
+/// One select batch that is large in bytes: member A receives one message of `big_len` bytes (sent from a thread, it blocks
+/// until the set drains it), members B1 / B2 have several small messages queued before and after A became ready; then
+/// silence.  Everything must be reported — a per-call budget in bytes or messages that leaves a member partly drained loses
+/// the rest for ever under edge-triggered readiness.
+pub fn big_batch_case(rng: &mut Rng, id: String, max: usize, big_len: usize) -> Case {
+    let mut case = Case::new(id.clone());
+    let _g = ip::install(Ctx::new(0));
+    let mut set = OsIpcReceiverSet::new().unwrap();
+    let mut ops: Vec<String> = Vec::new();
+    let k = 3usize;
+    let mut txs = Vec::new();
+    let mut ids = Vec::new();
+    for i in 0..k {
+        let (tx, rx) = platform::channel().unwrap();
+        ops.push(format!("new {}", i));
+        ids.push(set.add(rx).unwrap());
+        ops.push(format!("add {}", i));
+        txs.push(Some(tx));
+    }
+    let mut expect: Vec<Vec<String>> = vec![Vec::new(); k];
+    let mut tag = 0u64;
+    let nb1 = 2 + rng.below(3) as usize;
+    for _ in 0..nb1 {
+        tag += 1;
+        txs[1].as_ref().unwrap().send(&msg(tag, false, max), vec![], vec![]).unwrap();
+        ops.push(format!("send 1 {}", tag));
+        expect[1].push(tag.to_string());
+    }
+    tag += 1;
+    let big_tag = tag;
+    let mut big = vec![0u8; big_len];
+    big[..8].copy_from_slice(&big_tag.to_le_bytes());
+    for (i, b) in big.iter_mut().enumerate().skip(8) {
+        *b = (big_tag as u8).wrapping_add((i % 251) as u8);
+    }
+    let big_copy = big.clone();
+    let atx = txs[0].take().unwrap();
+    let h = std::thread::spawn(move || {
+        let r = atx.send(&big_copy, vec![], vec![]);
+        // keep the sender alive until the receiver has had time to report; dropped at the end of the case
+        (atx, r.is_ok())
+    });
+    ops.push(format!("send 0 {}", big_tag));
+    expect[0].push(big_tag.to_string());
+    std::thread::sleep(std::time::Duration::from_millis(60));
+    let nb2 = 2 + rng.below(3) as usize;
+    for _ in 0..nb2 {
+        tag += 1;
+        txs[2].as_ref().unwrap().send(&msg(tag, false, max), vec![], vec![]).unwrap();
+        ops.push(format!("send 2 {}", tag));
+        expect[2].push(tag.to_string());
+    }
+    let mut seen: Vec<Vec<String>> = vec![Vec::new(); k];
+    let mut rounds = 0;
+    while (0..k).any(|i| seen[i].len() < expect[i].len()) && rounds < 12 && case.oracle.is_none() {
+        rounds += 1;
+        arm(&id, &ops, 20);
+        let r = set.select();
+        disarm();
+        match r {
+            Ok(rs) => {
+                for r in rs {
+                    match r {
+                        OsIpcSelectionResult::DataReceived(id, d, _, _) => match ids.iter().position(|x| *x == id) {
+                            Some(0) => {
+                                if d == big {
+                                    seen[0].push(big_tag.to_string());
+                                } else {
+                                    case.fail(format!("the {}-byte message arrived altered ({} bytes)", big_len, d.len()));
+                                }
+                            },
+                            Some(i) => seen[i].push(tag_of(&d, max).map(|t| t.to_string()).unwrap_or("?".into())),
+                            None => case.fail(format!("event for unknown id {}", id)),
+                        },
+                        OsIpcSelectionResult::ChannelClosed(id) => case.fail(format!("closure reported for id {} while its sender exists", id)),
+                    }
+                }
+                ops.push("select".into());
+            },
+            Err(e) => case.fail(format!("select failed: {:?}", e)),
+        }
+    }
+    for i in 0..k {
+        if seen[i] != expect[i] && case.oracle.is_none() {
+            case.fail(format!("member {} reported {:?} where {:?} was sent", i, seen[i], expect[i]));
+        }
+    }
+    let (atx, ok) = h.join().unwrap();
+    if !ok {
+        case.fail("the large send failed".into());
+    }
+    drop(atx);
+    let per: Vec<String> = (0..k).map(|i| format!("m{}={}", i, if seen[i].is_empty() { "-".into() } else { seen[i].join(",") })).collect();
+    let idl: Vec<String> = ids.iter().enumerate().map(|(i, v)| format!("{}:{}", i, v)).collect();
+    case.pair(format!("set | {}", ops.join(" | ")), format!("{} ids={} blocked=0", per.join(" "), idl.join(",")));
+    case.nontrivial = true;
+    case.key = format!("bigbatch:{}:{}:{}", big_len, nb1, nb2);
+    case.tags.push(format!("batch_bytes={}", big_len));
+    case
+}
+
 pub fn run(args: &[String]) {
     let sys_arg = arg_u64(args, "--sys", 4608) as usize;
     ip::SPOOF_SNDBUF.store(sys_arg, Ordering::SeqCst);
@@ -347,6 +448,11 @@ pub fn run(args: &[String]) {
     for i in 0..n {
         let nm = if i % 5 == 4 { 30 } else { 6 };
         seq_case(&mut rng, format!("set-{}", i), max, nm).emit();
+    }
+    // a batch that is large in bytes
+    let lens: &[usize] = if thorough { &[1 << 20, 3 << 20, 5 << 20, 9 << 20, 17 << 20] } else { &[1 << 20, 5 << 20, 9 << 20] };
+    for (j, l) in lens.iter().enumerate() {
+        big_batch_case(&mut rng, format!("set-bigbatch-{}", j), max, *l).emit();
     }
     // many members ready at once, around and beyond the events buffer (10), then silence
     let ks: &[usize] = if thorough { &[1, 9, 10, 11, 19, 20, 21, 24, 40, 64, 100] } else { &[9, 10, 11, 24, 64] };
